@@ -418,6 +418,13 @@ func (w *World) Step(no int, st Step, b *Behaviour) error {
 		}()
 		ev["ev"] = strings.ToUpper(st.A[:1]) + st.A[1:]
 		ev["ok"], ev["err"] = err == nil, errClass(err)
+		ev["guard"] = ""
+		if err != nil && Guards && strings.Contains(err.Error(), "child not found") {
+			// KF-UNDO-ANCHOR-PURGED: the reverse operation names an array
+			// element or anchor that a peer removed and GC purged. Listed
+			// known finding, identified by this call site and error.
+			ev["ok"], ev["guard"] = true, "KF-UNDO-ANCHOR-PURGED"
+		}
 	case "sync":
 		if !precond(c != nil && rep != nil && rep.D.Status() == document.StatusAttached, "not attached") {
 			return nil
